@@ -114,7 +114,98 @@ def coq_op(op):
     return f"OCRot {AX_COQ[ax]} {c} {t} {z(n)} {z(d)}"
 
 
-def build_rows(ns):
+# ---------------------------------------------------------------- gates outside the frozen table
+KNOWN_MNEMONICS = {"x", "y", "z", "h", "k", "s", "t", "rot_x", "rot_y", "rot_z", "cnot", "cphase", "mov"}
+
+
+def k32_exact(zc, tol=1e-12):
+    """Exact representation of a complex number in K32 = Z[1/2][w]/(w^32+1), w = e^{i pi/32}, searched among
+    0, +-w^a / 2^m and (w^a +- w^b) / 2^m (entries of gates built from rotations by multiples of pi/16 are of
+    this form; sqrt2 = w^8 - w^24).  Returns (32 integer coefficients, exponent of the denominator) or None."""
+    import cmath
+    import math
+    W = [cmath.exp(1j * math.pi * k / 32) for k in range(64)]
+
+    def poly(terms, m):
+        c = [0] * 32
+        for a, sgn in terms:
+            a %= 64
+            if a >= 32:
+                a, sgn = a - 32, -sgn
+            c[a] += sgn
+        while m > 0 and all(x % 2 == 0 for x in c):
+            c, m = [x // 2 for x in c], m - 1
+        if all(x == 0 for x in c):
+            m = 0
+        return c, m
+
+    if abs(zc) < tol:
+        return [0] * 32, 0
+    for m in range(0, 4):
+        sc = 2 ** m
+        for a in range(64):
+            if abs(W[a] / sc - zc) < tol:
+                return poly([(a, 1)], m)
+        for a in range(64):
+            for bb in range(a + 1, 64):
+                for sb in (1, -1):
+                    if abs((W[a] + sb * W[bb]) / sc - zc) < tol:
+                        return poly([(a, 1), (bb, sb)], m)
+    return None
+
+
+def coq_k32(c, e):
+    while c and c[-1] == 0:
+        c = c[:-1]
+    return "(mkK " + lst([z(x) for x in c]) + f"%Z {e}%nat)"
+
+
+def custom_gates(ns):
+    """Vanilla gate classes whose mnemonic is not in the frozen specification table: their operator is
+    taken from the class's own to_matrix() (exact K32 form searched and verified numerically).  A class
+    whose matrix has no exact form of the searched shapes is reported (fail-closed) through `problems`."""
+    import inspect
+
+    import numpy as np
+    found, problems = [], []
+    for name, cls in inspect.getmembers(ns.vanilla, inspect.isclass):
+        if cls.__module__ != ns.vanilla.__name__:
+            continue
+        single = issubclass(cls, ns.core.SingleQubitInstruction)
+        two = issubclass(cls, ns.core.TwoQubitInstruction)
+        if not (single or two) or cls.mnemonic in KNOWN_MNEMONICS:
+            continue
+        try:
+            ins = cls(reg=qreg(ns, 0)) if single else cls(reg0=qreg(ns, 0), reg1=qreg(ns, 1))
+            M = np.asarray(ins.to_matrix(), dtype=complex)
+        except Exception as e:  # noqa
+            problems.append(f"{name}: to_matrix() raised {type(e).__name__}")
+            continue
+        dim = 2 if single else 4
+        if M.shape != (dim, dim):
+            problems.append(f"{name}: to_matrix() has shape {M.shape}")
+            continue
+        if np.max(np.abs(M.conj().T @ M - np.eye(dim))) > 1e-9:
+            problems.append(f"{name}: published matrix is not unitary")
+            continue
+        exact = [[k32_exact(complex(M[r, c])) for c in range(dim)] for r in range(dim)]
+        if any(x is None for row in exact for x in row):
+            problems.append(f"{name} ({cls.mnemonic}): no exact K32 form found for its published matrix")
+            continue
+        if not all(ch.isalnum() or ch == "_" for ch in cls.mnemonic):
+            problems.append(f"{name}: mnemonic {cls.mnemonic!r}")
+            continue
+        found.append(dict(cls=cls, clsname=name, mnemonic=cls.mnemonic, single=single, exact=exact,
+                          matrix=[[[float(M[r, c].real), float(M[r, c].imag)] for c in range(dim)] for r in range(dim)]))
+    return found, problems
+
+
+def coq_custom(g):
+    rows = lst([lst([coq_k32(list(c), e) for (c, e) in row]) for row in g["exact"]])
+    return f"VCustom {s(g['mnemonic'])} {rows}"
+
+
+def build_rows(ns, customs=()):
     rows = []  # dicts: name, gate(coq), place, hw, ops, meta
     for hw in (False, True):
         h = int(hw)
@@ -126,6 +217,22 @@ def build_rows(ns):
                 ops = resolve(ns, out, {q: 0})
                 rows.append(dict(name=f"{g.lower()} q{q} hw={h}", gate=f"VG1 G{g}", place="PSingle", hw=hw, ops=ops,
                                  meta=dict(gate=g, ids=[q], hw=hw)))
+        # gates outside the frozen table, specification = their own published matrix
+        for g in customs:
+            if not g["single"]:
+                continue
+            for q in [0] + CARBONS:
+                try:
+                    out = transpile(ns, [ns.core.SetInstruction(reg=qreg(ns, 0), imm=ns.Immediate(q)),
+                                         g["cls"](reg=qreg(ns, 0))], hw)
+                except ValueError:
+                    g["accepted"] = False       # not a gate the NV transpiler accepts: no row
+                    break
+                g["accepted"] = True
+                ops = resolve(ns, out, {q: 0})
+                rows.append(dict(name=f"{g['mnemonic']} q{q} hw={h} [spec from to_matrix]", gate=coq_custom(g), place="PSingle",
+                                 hw=hw, ops=ops, meta=dict(gate="CUSTOM", mnemonic=g["mnemonic"], cls=g["clsname"],
+                                                           matrix=g["matrix"], ids=[q], hw=hw)))
         # rotations (matrix level: sample; the exhaustive sweep is separate)
         for ax in AXES:
             for d in range(0, 5):
@@ -161,6 +268,24 @@ def build_rows(ns):
                 gate = "VMov" if g == "MOV" else f"VG2 G{g}"
                 rows.append(dict(name=f"{g.lower()} q{a} q{c} hw={h}", gate=gate, place=pl, hw=hw, ops=ops,
                                  meta=dict(gate=g, ids=[a, c], hw=hw)))
+        for g in customs:
+            if g["single"]:
+                continue
+            for (a, c, pl) in placements:
+                instrs = [ns.core.SetInstruction(reg=qreg(ns, 0), imm=ns.Immediate(a)),
+                          ns.core.SetInstruction(reg=qreg(ns, 1), imm=ns.Immediate(c)),
+                          g["cls"](reg0=qreg(ns, 0), reg1=qreg(ns, 1))]
+                try:
+                    out = transpile(ns, instrs, hw)
+                except (ValueError, RuntimeError, AssertionError):
+                    g["accepted"] = False
+                    break
+                g["accepted"] = True
+                w = {0: 0, c: 1} if pl == "PEC" else {0: 0, a: 1} if pl == "PCE" else {0: 0, a: 1, c: 2}
+                ops = resolve(ns, out, w)
+                rows.append(dict(name=f"{g['mnemonic']} q{a} q{c} hw={h} [spec from to_matrix]", gate=coq_custom(g), place=pl,
+                                 hw=hw, ops=ops, meta=dict(gate="CUSTOM", mnemonic=g["mnemonic"], cls=g["clsname"],
+                                                           matrix=g["matrix"], ids=[a, c], hw=hw)))
         # MOV whose operand registers are not known at transpile time: the transpiler
         # assumes electron -> carbon (documented in _handle_two_qubit_gate)
         r0, r1 = qreg(ns, 0), qreg(ns, 1)
@@ -267,12 +392,16 @@ def emit(rows, sweep, path):
 def main():
     repo, out = sys.argv[1], sys.argv[2]
     ns = load(repo)
-    rows = build_rows(ns)
+    customs, problems = custom_gates(ns)
+    rows = build_rows(ns, customs)
     sweep = rotation_sweep(ns)
     emit(rows, sweep, out)
     if "--json" in sys.argv:
         jp = sys.argv[sys.argv.index("--json") + 1]
-        json.dump(dict(rows=[dict(name=r["name"], place=r["place"], ops=r["ops"], meta=r["meta"]) for r in rows],
+        json.dump(dict(derived=[dict(cls=g["clsname"], mnemonic=g["mnemonic"], accepted=g.get("accepted"),
+                                     matrix=g["matrix"]) for g in customs],
+                       derived_problems=problems,
+                       rows=[dict(name=r["name"], place=r["place"], ops=r["ops"], meta=r["meta"]) for r in rows],
                        sim_dev=[(a, n, d, ops) for a, n, d, ops in sweep[0]],
                        hw_dev=[(a, n, d, ops) for a, n, d, ops in sweep[4]],
                        hw_acc=sweep[2], sweep_count=sweep[3],
